@@ -229,7 +229,7 @@ def run(tier, seed, ev, vd):
                       'a type both waived by name and given a numeric limit is not generated (unspecified)',
                       'harness renders allowance entries to -maxwarn strings and groups them at random']
     unbounded_part(tier, ev)
-    res = tlc.run('WarnCount', CFG, consts=consts, dump=True, coverage=True, timeout=1500)
+    res = tlc.run('WarnCount', CFG, consts=consts, dump=True, coverage=True, timeout=1500 if tier == 'quick' else 5000)
     if res.violated:
         # the design itself is broken: a machinery/spec problem, not a finding about the code
         raise tlc.MachineryError('WarnCount model violates %s' % res.violated)
